@@ -50,6 +50,16 @@ func (c *WALCleaner) CleanupOldWALFiles(walfileAbsPaths []string) error {
 			continue
 		}
 
+		if blankWALStatus(fp) {
+			// the status message is synced before anything else is written to a WAL file, so a file that
+			// starts with a zero-filled status never held a transaction (power failure right after creation)
+			log.Info("WALFILE: %s has no status message, removing it...", fp)
+			if err = os.Remove(fp); err != nil {
+				log.Error("failed to remove a WALfile without status message", fp)
+			}
+			continue
+		}
+
 		w, err := TakeOverWALFile(fp)
 		if err != nil {
 			return fmt.Errorf("opening %s: %w", fp, err)
@@ -79,4 +89,24 @@ func (c *WALCleaner) CleanupOldWALFiles(walfileAbsPaths []string) error {
 		}
 	}
 	return nil
+}
+
+// blankWALStatus reports whether the file starts with a zero-filled status message
+// (message ID, file status, replay state and owner all zero).
+func blankWALStatus(filePath string) bool {
+	f, err := os.Open(filePath)
+	if err != nil {
+		return false
+	}
+	defer f.Close()
+	buf := make([]byte, 1+walStatusLenBytes)
+	if n, _ := f.Read(buf); n != len(buf) {
+		return false
+	}
+	for _, b := range buf {
+		if b != 0 {
+			return false
+		}
+	}
+	return true
 }
